@@ -245,7 +245,8 @@ def p5(led, rid, ctx):
 def p6(led, rid, ctx):
     lib = ctx.lib
     for name in ("unsat", "optimal"):
-        f = lib.method("ProofLog", name)
+        from .shared import method_view as _mv
+        f = _mv(lib, "ProofLog", name)
         ok = False
         for p in SymExec(f).run():
             var = None
@@ -484,9 +485,13 @@ def p11(led, rid, ctx):
     propagator finished: on every way round the propagation loop the length is read again"""
     lib = ctx.lib
     n = 0
-    for f in lib.fns.values():
-        if "/tests" in f.file:
+    from ..inline import view
+    for f0 in lib.fns.values():
+        if "/tests" in f0.file or f0.kind == "Closure" or not f0.calls_named("log_root_propagation_to_proof"):
             continue
+        # the step that runs one propagator may be a private helper of the loop
+        f = view(lib, f0, want=lambda g: g.file == f0.file and g.kind != "Closure" and g.vis != "pub" and len(g.blocks) <= 40
+                 and g.name not in ("log_root_propagation_to_proof", "prepare_for_conflict_resolution", "notify_propagators_about_domain_events"))
         for c in f.calls_named("log_root_propagation_to_proof"):
             R = resolver(f)
             tag = R.operand(c.args[2]) if len(c.args) > 2 else None
